@@ -13,7 +13,7 @@ from typing import Any, Callable, Dict, Generator, List, Optional
 from netqasm.backend.executor import Executor, inc_program_counter
 from netqasm.backend.network_stack import BaseNetworkStack
 from netqasm.backend.qnodeos import QNodeController
-from netqasm.lang.instr import NVFlavour, VanillaFlavour
+from netqasm.lang.instr import DebugInstruction, NVFlavour, VanillaFlavour
 
 
 class NodeEnv:
@@ -30,6 +30,7 @@ class NodeEnv:
         self.retry_armed = False
         self.retry_count = 0
         self.wait_polls = 0
+        self.crot_virtual: List[tuple] = []
 
 
 class SimExecutor(Executor):
@@ -51,6 +52,11 @@ class SimExecutor(Executor):
     # -- scheduling seams --------------------------------------------------
     def _execute_command(self, subroutine_id, command):
         pc = self._program_counters[subroutine_id]
+        if isinstance(command, DebugInstruction):
+            # transpiler annotations (debug=True) are not executable: a simulator skips them
+            self._program_counters[subroutine_id] += 1
+            yield ("instr", subroutine_id, pc)
+            return
         for f in self.env.before_instr:
             f(self, subroutine_id, pc, command)
         yield from super()._execute_command(subroutine_id, command)
@@ -93,6 +99,7 @@ class SimExecutor(Executor):
     def _do_controlled_qubit_rotation(self, instr, subroutine_id, address1, address2, angle):
         p1 = self._phys(subroutine_id, address1)
         p2 = self._phys(subroutine_id, address2)
+        self.env.crot_virtual.append((address1, address2))
         self.env.qmem.crot(instr.mnemonic, p1, p2, angle)
         return None
 
